@@ -120,3 +120,16 @@ impl PathBuf {
     #[verifier::external_body]
     pub fn from_s(s: &Str) -> (r: PathBuf) ensures r.pstr() == s@, r.utf8_ok(), r.comps() == parse(s@) { unimplemented!() }
 }
+
+// ToStringExt for Component / OsStr: the string of a single component (RootDir is "/", CurDir ".", ParentDir "..", a name its characters)
+pub uninterp spec fn name_utf8(n: Name) -> bool;
+pub open spec fn comp_str(c: Component) -> Seq<char> {
+    match c { Component::RootDir => seq!['/'], Component::CurDir => seq!['.'], Component::ParentDir => seq!['.', '.'], Component::Normal(n) => name_chars(n) }
+}
+impl Component {
+    // ASSUMED[component-to-string]: ToStringExt for Component pushes the component onto an empty PathBuf and renders it (src/core/string.rs)
+    #[verifier::external_body]
+    pub fn to_string(&self) -> (r: RvResult<Str>)
+        ensures r is Ok == (match *self { Component::Normal(n) => name_utf8(n), _ => true }), r is Ok ==> r->Ok_0@ == comp_str(*self)
+    { unimplemented!() }
+}
